@@ -242,8 +242,8 @@ def run_real(repo, lines, o):
     return ys, exc
 
 
-def check_match(repo, lines, o):
-    """-> (class, msgs)"""
+def check_match(repo, lines, o, tolerate_allarches_unknown=False):
+    """-> (class, msgs); the flag is used by a known-finding classifier only"""
     from pkgcore.ebuild import keywording as K
 
     ys, exc = run_real(repo, lines, o)
@@ -292,7 +292,7 @@ def check_match(repo, lines, o):
         cands = ref_stable_candidates(repo, ver)
         extra = cands if aa_eff else set()
         for k in kws:
-            if k not in KNOWN:
+            if k not in KNOWN and not (tolerate_allarches_unknown and k in extra and k not in {arch_of(w) for w in written}):
                 msgs.append(f"{what}: {req} names {k!r}, not a known arch")
             if o["cc"] and k not in o["cc"] and k not in extra:
                 msgs.append(f"{what}: {req} names {k!r} outside cc_arches")
@@ -412,4 +412,16 @@ def replay(case):
     return check_match(case["repo"], case["lines"], case["opts"])[1]
 
 
-CLASSIFIERS = {}
+def _allarches_readds_unknown(case):
+    """allarches (stable, with a filter_arch) re-adds the package's stabilization candidates after the unknown-arch check, so a
+    candidate arch that is missing from known_arches is named.  True only if allarches is effective and the case holds once
+    exactly those re-added, unwritten, unknown candidate arches are tolerated."""
+    if case.get("kind") != "match":
+        return False
+    o = case["opts"]
+    if not (o["allarches"] and o["stable"] and o["filter"]):
+        return False
+    return not check_match(case["repo"], case["lines"], o, tolerate_allarches_unknown=True)[1]
+
+
+CLASSIFIERS = {"allarches-readds-unknown-arch": _allarches_readds_unknown}
